@@ -175,8 +175,9 @@ class HedValidator:
                                                                        error_code=error_code,
                                                                        index_offset=index_offset)
         elif original_tag.extension:
-            issues += self._char_validator.check_for_invalid_extension_chars(original_tag,
+            issues += self._char_validator.check_for_invalid_extension_chars(report_as if report_as else original_tag,
                                                                              validate_text,
+                                                                             error_code=error_code,
                                                                              index_offset=index_offset)
 
         return issues
